@@ -99,6 +99,8 @@ type Behaviour struct {
 	Steps   []AStep    `json:"steps"`
 	Indexes []IndexDef `json:"indexes"`
 	MaxBulk int        `json:"maxBulk"`
+	Run     []bool     `json:"run"`   // which indexes are initialised at the end of the behaviour
+	Final   []ARes     `json:"final"` // what every index must hold once it has applied the whole log (RDump of the reference)
 	Origin  string     `json:"origin"`
 }
 type BehaviourFile struct {
